@@ -96,6 +96,33 @@ unsafe fn table_remove(ptr: usize) -> Option<Entry> {
         probes += 1;
     }
 }
+// Quarantine: while a call sequence runs, blocks that are released are not given back to the system allocator but parked
+// until the sequence is over. A use after free (the library releasing something the caller's object still points to) then
+// reads intact memory instead of corrupting the heap of this process, and the second release of the same block is seen as
+// what it is (a free of a pointer that is not live) instead of crashing the explorer.
+const QCAP: usize = 1 << 15;
+struct Quarantine {
+    on: AtomicBool,
+    len: AtomicUsize,
+    items: std::cell::UnsafeCell<[(usize, usize, usize); QCAP]>,
+}
+unsafe impl Sync for Quarantine {}
+static QUAR: Quarantine = Quarantine { on: AtomicBool::new(false), len: AtomicUsize::new(0), items: std::cell::UnsafeCell::new([(0, 0, 0); QCAP]) };
+
+fn quarantine_begin() {
+    QUAR.on.store(true, Ordering::Relaxed);
+}
+fn quarantine_flush() {
+    QUAR.on.store(false, Ordering::Relaxed);
+    let n = QUAR.len.swap(0, Ordering::Relaxed).min(QCAP);
+    for i in 0..n {
+        unsafe {
+            let (p, size, align) = (*QUAR.items.get())[i];
+            System.dealloc(p as *mut u8, Layout::from_size_align_unchecked(size, align));
+        }
+    }
+}
+
 fn record(ev: AuditEvent) {
     if !JUDGING.load(Ordering::Relaxed) {
         return;
@@ -148,7 +175,14 @@ unsafe impl GlobalAlloc for Auditor {
                 if e.size != layout.size() || e.align != layout.align() {
                     record(AuditEvent { kind: 2, alloc_size: e.size, alloc_align: e.align, free_size: layout.size(), free_align: layout.align() });
                 }
-                // release with the layout it was allocated with
+                // release with the layout it was allocated with (parked while a sequence runs, see Quarantine)
+                if QUAR.on.load(Ordering::Relaxed) {
+                    let i = QUAR.len.fetch_add(1, Ordering::Relaxed);
+                    if i < QCAP {
+                        (*QUAR.items.get())[i] = (ptr as usize, e.size, e.align);
+                        return;
+                    }
+                }
                 System.dealloc(ptr, Layout::from_size_align_unchecked(e.size, e.align));
             }
         }
@@ -740,6 +774,7 @@ struct RunResult {
 
 fn run_sequence(seq: &[Call], judge: bool) -> RunResult {
     take_events();
+    quarantine_begin();
     JUDGING.store(judge, Ordering::Relaxed);
     let (mismatches, used_proxies, keys) = unsafe {
         let mut w = World::new();
@@ -752,6 +787,7 @@ fn run_sequence(seq: &[Call], judge: bool) -> RunResult {
         (std::mem::take(&mut w.mismatches), w.used_proxies, keys)
     };
     JUDGING.store(false, Ordering::Relaxed);
+    quarantine_flush();
     let events = take_events();
     RunResult { events, leak_count: 0, leak_bytes: 0, mismatches, used_proxies, keys }
 }
@@ -760,6 +796,7 @@ fn run_sequence(seq: &[Call], judge: bool) -> RunResult {
 fn leak_probe(seq: &[Call]) -> (i64, i64) {
     let c0 = LIVE_COUNT.load(Ordering::Relaxed);
     let b0 = LIVE_BYTES.load(Ordering::Relaxed);
+    quarantine_begin();
     unsafe {
         let mut w = World::new();
         for c in seq {
@@ -768,6 +805,7 @@ fn leak_probe(seq: &[Call]) -> (i64, i64) {
         w.release_all();
         drop(w);
     }
+    quarantine_flush();
     (LIVE_COUNT.load(Ordering::Relaxed) - c0, LIVE_BYTES.load(Ordering::Relaxed) - b0)
 }
 
@@ -967,6 +1005,7 @@ fn main() {
         CURRENT.store(i, Ordering::Relaxed);
         BEAT_MS.store(t0.elapsed().as_millis() as u64, Ordering::Relaxed);
         // the slot model is optimistic about filter creation; skip sequences that are ill-typed at run time
+        quarantine_begin();
         let well_typed = unsafe {
             let mut w = World::new();
             let mut ok = true;
@@ -980,6 +1019,7 @@ fn main() {
             w.release_all();
             ok
         };
+        quarantine_flush();
         if !well_typed {
             skipped_ill_typed += 1;
             continue;
